@@ -57,15 +57,15 @@ def inspect(paths, run, o):
     return out
 
 
-def make_job(jid, n, i, line, nrec, method, scans, kind="expr", next_method="collect_paths"):
+def make_job(jid, n, i, line, nrec, method, scans, kind="expr", next_method="collect_paths", vmode="raise"):
     """kind expr: the abort is an error inside a match component under validation-mode raise; kind limit: an exception raised
     outside the match components (the collect() function names a header that record [line] does not have)"""
     members = []
     for k in range(n):
         if k == i and kind == "limit":
-            members.append(f'~id: m{k} validation-mode: raise~ $[{scans[k]}][ push("s", line_number()) collect("id", "a") ]')
+            members.append(f'~id: m{k} validation-mode: {vmode}~ $[{scans[k]}][ push("s", line_number()) collect("id", "a") ]')
         elif k == i:
-            members.append(f'~id: m{k} validation-mode: raise~ $[{scans[k]}][ push("s", line_number()) eq(line_number(), {line}) -> @x = int("zz") ]')
+            members.append(f'~id: m{k} validation-mode: {vmode}~ $[{scans[k]}][ push("s", line_number()) eq(line_number(), {line}) -> @x = int("zz") ]')
         else:
             members.append(f'~id: m{k}~ $[{scans[k]}][ push("s", line_number()) ]')
     rows = [["id", "a"]] + [([f"r{j}"] if (kind == "limit" and j == line) else [f"r{j}", str(j)]) for j in range(1, nrec)]
@@ -73,7 +73,7 @@ def make_job(jid, n, i, line, nrec, method, scans, kind="expr", next_method="col
     return {"id": jid, "files": {"f": rows}, "groups": {"g": members, "ok": ['~id: m0~ $[*][ yes() ]', '~id: m1~ $[1*][ @c = count() ]']},
             "runs": [{"method": method, "pathsname": "g", "filename": "f", "new_instance": True, "identities": ids},
                      {"method": next_method, "pathsname": "ok", "filename": "f", "new_instance": False, "identities": ["m0", "m1"]}],
-            "config": CFG, "inspect": inspect, "snapshot_inputs": True, "meta": {"n": n, "i": i, "line": line, "nrec": nrec, "method": method, "scans": scans, "kind": kind, "next_method": next_method}}
+            "config": CFG, "inspect": inspect, "snapshot_inputs": True, "meta": {"n": n, "i": i, "line": line, "nrec": nrec, "method": method, "scans": scans, "kind": kind, "next_method": next_method, "vmode": vmode}}
 
 
 def last_line(scan, nrec):
@@ -115,7 +115,9 @@ def run(ctx):
             scans = [s if s == scans[i] or s == "*" else "*" for s in scans]     # keep members in step in breadth-first runs
         # (the breadth-first methods trim lines elsewhere and do not raise here: the out-of-component abort is for the serial methods)
         kind = "limit" if (line >= 1 and "by_line" not in method and rng.random() < 0.4) else "expr"
-        jobs.append(make_job(jid, n, i, line, nrec, method, scans, kind, rng.choice(METHODS)))      # the further run on the same instance uses any of the methods
+        # the error policy of the aborting member: raise alone, or raise together with stop / fail / collect / print (the library's own default order)
+        vmode = rng.choice(["raise", "raise", "raise, stop", "raise, collect, stop, fail, print", "raise, fail", "stop, raise"])
+        jobs.append(make_job(jid, n, i, line, nrec, method, scans, kind, rng.choice(METHODS), vmode))      # the further run on the same instance uses any of the methods
     res = pmap(ctx, groups.run_history, jobs, chunksize=2)
     lits, broken = [], []
     for j, r in zip(jobs, res):
@@ -167,7 +169,7 @@ def run(ctx):
     ctx.coverage.update({
         "evaluations": len(jobs) * 2, "distinct_nontrivial": len({repr(j["meta"]) for j in jobs}),
         "rule": "abort points (member index i of n in 1..3, line 0..nrec-1, nrec in {3,5,6}) x {collect_paths, fast_forward_paths, next_paths, collect_by_line, next_by_line} "
-                "(quick: 260 random points of the 840; thorough: all, each under four random choices of scan windows), random scan windows for the members; abort = 'eq(line_number(), L) -> @x = int(\"zz\")' under validation-mode raise, or (30% of the points with L >= 1) an exception raised outside the match components: collect(\"id\", \"a\") on a record L that lacks the header; then one "
+                "(quick: 260 random points of the 840; thorough: all, each under four random choices of scan windows), random scan windows for the members; abort = 'eq(line_number(), L) -> @x = int(\"zz\")' under validation-mode raise (alone or with stop/fail/collect/print), or (30% of the points with L >= 1) an exception raised outside the match components: collect(\"id\", \"a\") on a record L that lacks the header; then one "
                 "further run (any of the five methods) of another group on the same instance. Non-trivial = every distinct abort point.",
         "samples": [case(0)], "exhaustive": not quick, "abort_points": len(jobs),
         "traces_validated_against_impl": len(idx) - len(agree_bad), "spec_failures": len(spec_bad), "on_last_scanned_line": len(d13),
